@@ -10,13 +10,17 @@ package conversion
 //@ -- (thin) direction and policy types: ingress rules are converted as ingress and egress rules as egress; the
 //@ -- converted policy applies to ingress iff the Kubernetes policy lists Ingress or lists no type we know, and to
 //@ -- egress iff it lists Egress (only: at least one and at most two types; Ingress first when listed).
+//@ spec macro npHas(np *networkingv1.NetworkPolicy, t networkingv1.PolicyType) bool = exists i int :: 0 <= i && i < len(np.Spec.PolicyTypes) && np.Spec.PolicyTypes[i] == t
 //@ func (converter).K8sNetworkPolicyToCalico
 //@   property C29
 //@   option safety off
+//@   option stable []networkingv1.PolicyType, (*networkingv1.NetworkPolicySpec).PolicyTypes, []apiv3.PolicyType
 //@   requires np != nil
 //@   ghost at call k8sRuleToCalico#2: check arg3
 //@   ghost at call k8sRuleToCalico#1: check !arg3
-//@   ghost at call k8sSelectorToCalico: check arg1 == SelectorPod ; check len(policyTypes) >= 1 && len(policyTypes) <= 2 ; check ingress ==> policyTypes[0] == apiv3.PolicyTypeIngress
+//@   ghost at call k8sSelectorToCalico: check arg1 == SelectorPod ; check ingress == npHas(np, networkingv1.PolicyTypeIngress) ; check egress == npHas(np, networkingv1.PolicyTypeEgress)
+//@   ghost at call GetError: check len(cast(policy, *apiv3.NetworkPolicy).Spec.Types) >= 1 && len(cast(policy, *apiv3.NetworkPolicy).Spec.Types) <= 2 ; check (cast(policy, *apiv3.NetworkPolicy).Spec.Types[0] == apiv3.PolicyTypeIngress) == (ingress || !egress) ; check (cast(policy, *apiv3.NetworkPolicy).Spec.Types[len(cast(policy, *apiv3.NetworkPolicy).Spec.Types) - 1] == apiv3.PolicyTypeEgress) == egress
+//@   loop 3 invariant -1 <= rangeindex && rangeindex < len(np.Spec.PolicyTypes) && (ingress == (exists i int :: 0 <= i && i <= rangeindex && np.Spec.PolicyTypes[i] == networkingv1.PolicyTypeIngress)) && (egress == (exists i int :: 0 <= i && i <= rangeindex && np.Spec.PolicyTypes[i] == networkingv1.PolicyTypeEgress))
 
 //@ -- peers: an ipBlock peer becomes exactly one net plus one excluded net per exception and no selectors; any
 //@ -- other peer becomes the two selectors (pod selector as a pod selector, namespace selector as a namespace
